@@ -3,5 +3,5 @@ CONSTANTS
   Peers = {"p1", "p2", "p3"}
   Self = "self"
   MaxEpoch = 4
-  Defects = {"StaleLeftEpoch", "StickyLeftFilter"}
+  Defects = {"StaleLeftEpoch", "LateStartReassign", "StickyLeftFilter"}
 CHECK_DEADLOCK FALSE
